@@ -548,3 +548,4 @@ def run(ctx):
   check_disassembly(ctx)
   check_disassembly_colors(ctx, tables)
   ctx.extra["finite_domain_evaluations"] = evals + n
+  common.check_history_independence(ctx, [n for n in ctx.ix.modules if n.startswith("ttconv.scc")])
